@@ -71,10 +71,33 @@ reg("C14", ["c14_varint.c"],
     exhaustive={"quick": "all octet strings of length <= 7 over the 6-octet alphabet as decoder input",
                 "thorough": "all 2^32 values of u32 and s32; all octet strings of length <= 11 over the 6-octet alphabet"})
 
+reg("C12", ["c12_slip.c"], level="fault_enumeration",
+    rule="'strings-N': every octet string of length N <= 7 (quick) / <= 9 (thorough) over {END, ESC, ESC_END, "
+         "ESC_ESC, 0x41}, each used (a) as payload (encode vs reference encoder, length bound, delimiter placement, "
+         "decode round trip), (b) as raw decoder input (every decode call compared with a reference decoder: result, "
+         "delivered frame, octets consumed; emitted <= consumed; progress bound on source calls), (c) as garbage "
+         "prefix before three well-formed frames (delivered frames must end with the last two, or all three when the "
+         "prefix is empty or - classic mode - ends in a delimiter); each in classic and start-of-frame mode with "
+         "octet and chunk style source and sink drivers (8 configurations); (d) strings of length <= 5 and every "
+         "7th longer one: a source error at every input position and a sink error at every output position of "
+         "encoder and decoder. 'random': seeded payloads up to 1 KiB (full alphabet, control-heavy, control-only). "
+         "A signature is a distinct string of length <= 4 or a (generator, unit) pair; evaluations counts "
+         "(string, configuration, use) executions.",
+    exhaustive={"quick": "all strings of length <= 7 over the 5-symbol alphabet in all three uses and 8 configurations",
+                "thorough": "all strings of length <= 9 over the 5-symbol alphabet in all three uses and 8 configurations"})
+
 SAN_NOTE = ("Trusted: gcc 12 ASan/UBSan runtime, the harness' reference model, the fork-per-unit runner. "
             "Assumes little-endian x86-64; decides only the executions listed in the evidence file.")
 
 MANIFEST_TEXT = {
+    "C12": dict(
+        technique="runtime monitoring: exhaustive small-alphabet execution with fault-injecting source/sink drivers, reference SLIP encoder/decoder and frame-level resynchronisation checker, ASan/UBSan",
+        text="All control-character strings up to the bound are executed as payload, as raw decoder input and as "
+             "garbage prefix in both modes and with both driver styles; encoder output is compared octet for octet "
+             "with a reference, every decoder call with a reference decoder, resynchronisation at frame level, and "
+             "source/sink errors are injected at every position and must come back unchanged. Termination is decided "
+             "by a bound on source calls, not by time.",
+        note=SAN_NOTE),
     "C14": dict(
         technique="runtime monitoring: exhaustive/boundary execution under ASan/UBSan against a reference LEB128 codec; exact-size poisoned decoder inputs",
         text="Every 32-bit value (thorough) and boundary/random 64-bit values go through encode, length query, sink "
